@@ -62,6 +62,10 @@ def verify_cases(triples, with_binary=False):
                 open(fp, 'wb').write(bytes(x)); fs.append(fp)
             rc = subprocess.run([exe] + fs, capture_output=True).returncode
             b = 'ok' if rc == 0 else 'panic'
+            if not c:        # the two-argument form of the binary (gamma-file proof-file) must mean "no claims"
+                rc2 = subprocess.run([exe, fs[0], fs[2]], capture_output=True).returncode
+                if (rc2 == 0) != (rc == 0):
+                    b = 'two-arg-form-differs'
         out.append({'kind': 'verify', 'gamma': list(g), 'claim': list(c), 'proof': list(p), 'out': r['out'],
                     'own': r['own'], 'bin': b, 'post': r['stack'], 'postmem': r['memory'], 'postclaims': r['claims']})
     return out
@@ -198,7 +202,7 @@ def run(v, tier):
     # 3. shipped triples: real verify(), checker binary, and mutations of them
     ship = shipped_triples()
     small = [t for _, t in ship if sum(map(len, t)) < (6000 if quick else 10 ** 9)]
-    cases = verify_cases(small, with_binary=True)
+    cases = verify_cases(small + [(g, [], []) for g, _, _ in small[:3]] + [([], [], [12, 27]), ([], [], [12]), ([2, 0, 30], [], [29, 0, 27])], with_binary=True)
     muts = []
     for g, c, p in small:
         nm = 6 if quick else 60
